@@ -41,8 +41,8 @@ def run (args : List String) : String :=
     let first := C04.run rest
     if first == "init-err" || first == "init-panic" then first ++ "=>-"
     else first ++ "=>" ++ runSub order2 rest
-  | [changes, tips, ord] =>
-    match parseCase changes ord, parseRefs tips ',' with
+  | [changes, tips, ord, sig] =>
+    match parseCase changes ord sig, parseRefs tips ',' with
     | some c, some tips =>
       let full := evalTips c (issueApply c) tips
       let first := showOut (showIssue c) full
